@@ -8,6 +8,22 @@ from typing import Iterator, List, Optional
 from .index import dotted, norm, parent, walk_no_nested
 
 
+def clone(node):
+    """Deep copy of an AST subtree that does not follow the `_parent` back pointers set by the index
+    (copy.deepcopy would copy the whole module through them)."""
+    if isinstance(node, ast.AST):
+        new = node.__class__()
+        for name, value in ast.iter_fields(node):
+            setattr(new, name, clone(value))
+        for attr in ("lineno", "col_offset", "end_lineno", "end_col_offset"):
+            if hasattr(node, attr):
+                setattr(new, attr, getattr(node, attr))
+        return new
+    if isinstance(node, list):
+        return [clone(x) for x in node]
+    return node
+
+
 def calls_in(node, pred=None, nested=False) -> Iterator[ast.Call]:
     it = ast.walk(node) if nested else walk_no_nested(node)
     for n in it:
@@ -260,7 +276,7 @@ class _Subst(ast.NodeTransformer):
 def alpha(node, mapping):
     """Copy of `node` with plain names renamed according to `mapping`."""
     import copy as _copy
-    return _Subst(mapping).visit(_copy.deepcopy(node))
+    return _Subst(mapping).visit(clone(node))
 
 
 def ifexp_chain(node, mapping=None):
@@ -348,7 +364,7 @@ class Expander:
                     return ex.expand(ex.unique[n.id], _depth + 1, _stack + (n.id,))
                 return n
 
-        return T().visit(_copy.deepcopy(node))
+        return T().visit(clone(node))
 
     def text(self, node) -> str:
         return norm(self.expand(node))
@@ -428,7 +444,7 @@ def canon_function_text(fn_node, keep_params=True) -> str:
     """Text of a function that is invariant under renaming of its locals, docstring edits and operand order of
     pure comparisons (the module-level normaliser has already removed single-use temporaries, else-after-return, ...)."""
     import copy as _copy
-    fn = _copy.deepcopy(fn_node)
+    fn = clone(fn_node)
     if fn.body and isinstance(fn.body[0], ast.Expr) and isinstance(fn.body[0].value, ast.Constant) and isinstance(fn.body[0].value.value, str):
         fn.body = fn.body[1:] or [ast.Pass()]
     a = fn.args
